@@ -12,20 +12,22 @@ from vf.registry import POOL, missing_from_registry
 from vf import multiannot
 
 PROPERTY = "C05"
-TECHNIQUE = "before/after structural fingerprints of all call arguments, models and get_params + constructor-parameter write monitor + clone/pickle probes around every pool query"
+TECHNIQUE = "before/after structural fingerprints of all call arguments, models and get_params + constructor-parameter write monitor + write-protected input arrays (a write raises at the writing statement) + clone/pickle probes around every pool query"
 RULE = ("cases = registry entry (incl. lazy-default and caller-owned-dict variants) x wrapper {none, SubSamplingWrapper, "
         "ParallelUtilityEstimationWrapper, SingleAnnotatorWrapper} plus IntervalEstimationThreshold x model passing mode "
         "{unfitted + fit=True, pre-fitted + fit=False} x optional sample_weight / utility_weight x 1-3 consecutive queries; "
         "byte-wise fingerprints of every array argument, get_params(deep=True) of strategy and models (dict contents "
         "included), fitted attributes of the models, write-monitor events on caller-owned constructor parameters, "
-        "pickle.dumps/clone after the query, and equality of the answers of a post-query clone and a fresh object. "
+        "pickle.dumps/clone after the query, and equality of the answers of a post-query clone and a fresh object; every third case "
+        "passes all arrays with writeable=False, so that even a write that is undone before the call returns raises inside the "
+        "package (reported with file:line; a rejection raised inside third-party code is counted, not judged). "
         "Non-trivial = configuration resolves a lazy default, passes a caller-owned dict, a pre-fitted model or a wrapper; "
         "distinct by (entry, wrapper, fit mode, weights, n_queries, data, labels, cmode).")
 ASSUMPTIONS = [
     "with fit_*=False the position of the model's own random_state_ may advance (its public predict draws tie-breaks): not a side effect (DESIGN 5.1)",
     "a write that leaves all bytes, parameters and fitted attributes equal is only visible to the write monitor (constructor parameters)",
 ]
-REQUIRED_MONITORS = ["C05.side-effect-contract", "C05.write-monitor-armed"]
+REQUIRED_MONITORS = ["C05.side-effect-contract", "C05.write-monitor-armed", "C05.read-only-sentinel"]
 WRAPS = ["none", "none", "sub", "par", "saw"]
 FIT_FLAG = {"clf": "fit_clf", "reg": "fit_reg", "ensemble": "fit_ensemble"}
 
@@ -133,6 +135,14 @@ def run_case(desc):
     mod_before = {k: _model_fp(m, fit_mode == "prefit") for k, m in models.items()}
     outs = []
     err = None
+    # every third case hands the arrays over write-protected: a write inside the package then raises at the writing
+    # statement, even if the bytes would have been restored before the call returns (invisible to the fingerprints)
+    readonly = (desc["seed"] >> 9) % 3 == 0
+    if readonly:
+        for v in kw.values():
+            if isinstance(v, np.ndarray):
+                v.flags.writeable = False
+        contracts.count("C05.read-only-sentinel")
     for q in range(desc["nq"]):
         steps.begin()
         try:
@@ -142,6 +152,15 @@ def run_case(desc):
             break
         except Exception as ex:
             err = "%s: %s" % (type(ex).__name__, str(ex)[:200])
+            if readonly and "read-only" in str(ex):
+                import traceback
+                tb = traceback.extract_tb(ex.__traceback__)
+                last = tb[-1]
+                if "/skactiveml/" in last.filename.replace("\\", "/"):
+                    add("writes-to-write-protected-input", "%s at %s:%d (%s): %s" % (
+                        type(ex).__name__, last.filename.split("/skactiveml/")[-1], last.lineno, last.name, (last.line or "").strip()))
+                else:
+                    contracts.count("C05.third-party-rejects-read-only")
             break
         finally:
             steps.end()
